@@ -12,6 +12,18 @@ use std::marker::PhantomData;
 use std::sync::atomic::{AtomicU64, Ordering};
 use std::sync::{Arc, Mutex};
 
+/// set once by main: the thorough tier affords larger per-word state caps
+pub static THOROUGH: std::sync::atomic::AtomicBool = std::sync::atomic::AtomicBool::new(false);
+/// per-word cap on |R(w)| in the merge-tree exploration (never reached on the unchanged tree in the
+/// quick tier; a broken merge can reach it, which is then reported as a cap, not as exhaustiveness)
+pub fn word_cap() -> usize {
+    if THOROUGH.load(std::sync::atomic::Ordering::Relaxed) {
+        20_000
+    } else {
+        4_000
+    }
+}
+
 // ---------------------------------------------------------------------------------------
 // alphabets
 
